@@ -102,6 +102,89 @@ def rel_list(d, n):
 
 # ------------------------------------------------------------------ implementation
 
+class ArgumentsMutated(Exception):
+    """a routine changed an argument it must not change (or did not work in place when asked to)"""
+
+
+class CallNotRepeatable(Exception):
+    """the same non-inplace call from the same base gave two different answers"""
+
+
+class ChainMismatch(Exception):
+    """add -> remove -> add (or remove -> add) on the returned relation did not come back to the expected relation"""
+
+
+def _snap(cs, *rels):
+    return ([tuple(c.extent_i) for c in cs],
+            [None if r is None else ({k: frozenset(v) for k, v in r.items()} if isinstance(r, dict)
+                                     else [list(x) for x in r]) for r in rels])
+
+
+def _check_unchanged(what, before, cs, *rels):
+    after = _snap(cs, *rels)
+    if after != before:
+        raise ArgumentsMutated('%s changed its arguments: %r -> %r' % (what, before, after))
+
+
+def _result(ret, n):
+    _, sub2, sup2, t, b = ret
+    return [rel_list(sub2, n), rel_list(sup2, n), int(t), int(b)]
+
+
+def run_add_remove(case, lca, cs, sub, sup):
+    """add_concept / remove_concept in one of the calling modes: in place, on copies, twice from the same base,
+    chained on the returned relation"""
+    op, n = case['op'], len(cs)
+    mode = case.get('mode') or 'inplace'
+    tb = (case['top'], case['bottom'])
+    new = make_concepts(case, [case['new']])[0] if op == 8 else None
+
+    def call(concepts, sub_, sup_, inplace, top_bottom=tb):
+        if op == 8:
+            return lca.add_concept(new, concepts, sub_, sup_, top_bottom[0], top_bottom[1], inplace=inplace)
+        return lca.remove_concept(case['arg'], concepts, sub_, sup_, top_bottom[0], top_bottom[1], inplace=inplace)
+    n2 = n + 1 if op == 8 else n - 1
+    if mode == 'inplace':
+        ret = call(cs, sub, sup, True)
+        if ret[0] is not cs or ret[1] is not sub or ret[2] is not sup:
+            raise ArgumentsMutated('inplace=True did not return the objects it was given')
+        return _result(ret, n2)
+    before = _snap(cs, sub, sup)
+    ret = call(cs, sub, sup, False)
+    _check_unchanged('inplace=False call', before, cs, sub, sup)
+    res = _result(ret, n2)
+    if mode == 'copy':
+        return res
+    if mode == 'copy_twice':
+        # two independent calls from the same base must agree
+        res2 = _result(call(cs, sub, sup, False), n2)
+        _check_unchanged('second inplace=False call', before, cs, sub, sup)
+        if res2 != res:
+            raise CallNotRepeatable('first %r, second %r' % (res, res2))
+        return res
+    # chains on the returned relation
+    cs2, sub2, sup2, t2, b2 = ret
+    if op == 8:
+        try:
+            back = lca.remove_concept(n, cs2, sub2, sup2, t2, b2, inplace=False)
+        except AssertionError:
+            return res                  # the new concept is a top/bottom that cannot be taken out again
+        if _result(back, n)[:2] != [rel_list(sub, n), rel_list(sup, n)]:
+            raise ChainMismatch('add then remove does not give the base relation back: %r' % (_result(back, n),))
+        again = lca.add_concept(new, back[0], back[1], back[2], back[3], back[4], inplace=True)
+        res3 = _result(again, n + 1)
+        if res3 != res:
+            raise ChainMismatch('add, remove, add: %r instead of %r' % (res3, res))
+        return res
+    removed = cs[case['arg']]
+    again = lca.add_concept(removed, cs2, sub2, sup2, t2, b2, inplace=False)
+    listing = [e for k, e in enumerate(case['exts']) if k != case['arg']] + [case['exts'][case['arg']]]
+    want = covers_py(listing)
+    if rel_list(again[1], n) != [sorted(want[i]) for i in range(n)]:
+        raise ChainMismatch('remove then add: %r' % (rel_list(again[1], n),))
+    return res
+
+
 def run_impl(case):
     def go():
         from fcapy.algorithms import lattice_construction as lca
@@ -109,6 +192,16 @@ def run_impl(case):
         cs = make_concepts(case)
         n = len(cs)
         op, flag, jobs = case['op'], case['sorted'], case['n_jobs']
+        if op >= 8:
+            cov = covers_py(case['exts'])
+            return run_add_remove(case, lca, cs, {i: set(v) for i, v in cov.items()}, transpose_py(cov, n))
+        before = _snap(cs)
+        try:
+            return go_routines(lca, ConceptLattice, cs, n, op, flag, jobs)
+        finally:
+            _check_unchanged(OPS[op], before, cs)
+
+    def go_routines(lca, ConceptLattice, cs, n, op, flag, jobs):
         if op == 0:
             return [rel_list(lca.complete_comparison(cs, is_concepts_sorted=flag, n_jobs=jobs), n), [], 0, 0]
         if op in (1, 2, 4, 5) and case.get('chains') is None:
@@ -116,7 +209,10 @@ def run_impl(case):
             sub_l, sup_l = rel_list(sub_st, n), rel_list(sup_st, n)
             if op == 1:
                 return [sub_l, sup_l, 0, 0]
+            sup_before = {k: list(v) for k, v in sup_st.items()}
             chains = canon(ConceptLattice._get_chains(cs, sup_st, is_concepts_sorted=flag))
+            if {k: list(v) for k, v in sup_st.items()} != sup_before:
+                raise ArgumentsMutated('_get_chains changed the parents dictionary')
             if op == 2:
                 return [chains, sup_l, 0, 0]
         else:
@@ -125,26 +221,23 @@ def run_impl(case):
             parents = transpose_py(covers_py(case['exts']), n)
             return [canon(ConceptLattice._get_chains(cs, parents, is_concepts_sorted=flag)), [], 0, 0]
         if op == 4:
-            r = lca.construct_lattice_from_spanning_tree(cs, [list(c) for c in chains], is_concepts_sorted=flag)
+            arg = [list(c) for c in chains]
+            r = lca.construct_lattice_from_spanning_tree(cs, arg, is_concepts_sorted=flag)
+            if arg != [list(c) for c in chains]:
+                raise ArgumentsMutated('the chains were changed')
             return [rel_list(r, n), chains, 0, 0]
         if op == 5:
-            r = lca.construct_lattice_from_spanning_tree_parallel(cs, [list(c) for c in chains],
-                                                                  is_concepts_sorted=flag, n_jobs=jobs)
+            arg = [list(c) for c in chains]
+            r = lca.construct_lattice_from_spanning_tree_parallel(cs, arg, is_concepts_sorted=flag, n_jobs=jobs)
+            if arg != [list(c) for c in chains]:
+                raise ArgumentsMutated('the chains were changed')
             return [rel_list(r, n), chains, 0, 0]
         if op == 6:
             return [rel_list(lca.construct_lattice_by_spanning_tree(cs, is_concepts_sorted=flag, n_jobs=jobs), n),
                     [], 0, 0]
         if op == 7:
             return [rel_list(lca.order_extents_comparison(cs), n), [], 0, 0]
-        cov = covers_py(case['exts'])
-        sub = {i: set(v) for i, v in cov.items()}
-        sup = transpose_py(cov, n)
-        if op == 8:
-            new = make_concepts(case, [case['new']])[0]
-            _, sub2, sup2, t, b = lca.add_concept(new, cs, sub, sup, case['top'], case['bottom'], inplace=True)
-            return [rel_list(sub2, n + 1), rel_list(sup2, n + 1), int(t), int(b)]
-        _, sub2, sup2, t, b = lca.remove_concept(case['arg'], cs, sub, sup, case['top'], case['bottom'], inplace=True)
-        return [rel_list(sub2, n - 1), rel_list(sup2, n - 1), int(t), int(b)]
+        raise ValueError('unknown op %r' % op)
 
     old = sys.getswitchinterval()
     if case.get('switch'):
@@ -186,8 +279,8 @@ def to_coq(case, out):
 # ------------------------------------------------------------------ generation
 
 def _mk(table, exts, flag, op, n_jobs=1, chains=None, arg=None, new=None, top=None, bottom=None,
-        switch=False, kind=''):
-    return {'table': table, 'exts': exts, 'sorted': flag, 'op': op, 'n_jobs': n_jobs, 'chains': chains,
+        switch=False, kind='', mode=None):
+    return {'mode': mode, 'table': table, 'exts': exts, 'sorted': flag, 'op': op, 'n_jobs': n_jobs, 'chains': chains,
             'arg': arg, 'new': new, 'top': top, 'bottom': bottom, 'switch': switch, 'kind': kind}
 
 
@@ -365,7 +458,7 @@ def table_of_family(n_objects, family):
 def nongraded_family(rng, max_n):
     """A list of distinct object sets with a greatest and a least one whose order is NOT graded: maximal chains
     of different length between the same two elements (pentagon-like shapes, uneven chains below a node)."""
-    shape = rng.choice(['uneven', 'uneven', 'pentagon', 'randfam'])
+    shape = rng.choice(['uneven', 'uneven', 'pentagon', 'randfam', 'crown'])
     if shape == 'pentagon':
         # 0 < a < b < 1 and 0 < c < 1 with c incomparable to a, b; optionally stretched / doubled
         la, lc = rng.randint(2, 3), 1
@@ -373,6 +466,19 @@ def nongraded_family(rng, max_n):
         fam = [frozenset(range(k + 1)) for k in range(la)] + [frozenset([la])]
         if rng.random() < 0.5:
             fam.append(frozenset(range(la)) | frozenset([la]))     # a node above both chains
+    elif shape == 'crown':
+        # s < r, O_1..O_k ; r < P_1..P_k ; O_i < P_i : removing r hands its parents P_i to s, where every one of them
+        # is transitive through O_i; blocks of different size put the supports of the O_i and P_i in varying order
+        k = rng.randint(2, 3)
+        sizes = [rng.randint(1, 3) for _ in range(k)]
+        fam, start = [frozenset([0]), frozenset([0, 1])], 2
+        for sz in sizes:
+            blk = frozenset(range(start, start + sz))
+            fam += [frozenset([0]) | blk, frozenset([0, 1]) | blk]
+            start += sz
+        if rng.random() < 0.4:
+            fam.append(frozenset([1]))
+        m = start + rng.randint(0, 1)
     elif shape == 'uneven':
         # two or three nested chains of different length on disjoint blocks, a node N above their tops,
         # a chain from N up to the full set
@@ -484,6 +590,8 @@ def random_case(rng, max_dim, max_n, ops, threaded=False, switch=False):
             bot = min(range(n), key=lambda i: len(s[i]))
             r = rng.random()
             arg = rng.randrange(n) if r < 0.85 else rng.choice([top, bot])
+            if kind.startswith('nongraded-crown') and [0, 1] in listing and rng.random() < 0.7:
+                arg = listing.index([0, 1])
             if rng.random() < 0.2:
                 # a list whose bottom has exactly one upper cover / whose top has exactly one lower cover:
                 # removing that bottom / top is legitimate (the reduced list still has a least / greatest one)
@@ -506,7 +614,8 @@ def random_case(rng, max_dim, max_n, ops, threaded=False, switch=False):
                 arg = rng.choice([top, bot]) if rng.random() < 0.7 else rng.randrange(n)
             tb = rng.choice(['none', 'given', 'given', 'one'])
             t, b = (None, None) if tb == 'none' else (top, bot) if tb == 'given' else (top, None)
-            return _mk(table, listing, False, 9, arg=arg, top=t, bottom=b, kind=kind)
+            return _mk(table, listing, False, 9, arg=arg, top=t, bottom=b, kind=kind,
+                       mode=rng.choice(['inplace', 'inplace', 'copy', 'copy_twice', 'chain']))
     return _mk(table, listing, flag, op, n_jobs=n_jobs, chains=chains, switch=switch, kind=kind)
 
 
@@ -532,7 +641,8 @@ def add_case(rng, table, listing, flag, kind):
     b2 = min(range(n - 1), key=lambda k: len(s2[k]))
     tb = rng.choice(['none', 'given', 'given', 'one'])
     t, b = (None, None) if tb == 'none' else (t2, b2) if tb == 'given' else (None, b2)
-    return _mk(table, rest, False, 8, new=new, top=t, bottom=b, kind=kind)
+    return _mk(table, rest, False, 8, new=new, top=t, bottom=b, kind=kind,
+               mode=rng.choice(['inplace', 'inplace', 'copy', 'copy_twice', 'chain']))
 
 
 def exhaustive_cases():
@@ -601,6 +711,7 @@ def stats(case):
         d['flagged listing'] = ('support non-increasing' if all(sup[i] >= sup[i + 1] for i in range(len(sup) - 1))
                                 else 'topological, supports go up and down')
     if case['op'] in (8, 9):
+        d['calling mode'] = case.get('mode') or 'inplace'
         full = case['exts'] + ([case['new']] if case.get('new') is not None else [])
         d['add/remove order'] = 'graded' if is_graded(full) else 'non-graded'
     if case['n_jobs'] > 1 and case['op'] in (5, 6):
